@@ -393,7 +393,7 @@ fn gen_notice_fields(r: &mut Rng, bad: bool) -> HashMap<u8, String> {
     let codes = b"SVCMDHPpqWstcdnFLR";
     for _ in 0..n {
         let k = if r.chance(4, 5) { *r.pick(codes) } else { r.range(1, 255) as u8 };
-        m.insert(k, gen_text(r, false));
+        m.insert(k, if r.chance(1, 4) { String::new() } else { gen_text(r, false) });
     }
     if bad {
         if r.chance(1, 2) {
@@ -634,6 +634,29 @@ fn main() {
         probes.push(BackendMessage::RowDescription { fields: (0..32767).map(|_| fd("c")).collect() });
         probes.push(BackendMessage::RowDescription { fields: (0..32768).map(|_| fd("c")).collect() });
     }
+    // empty strings / empty lists / zero counts in every variable-length component, and an empty
+    // value in every field position of ErrorResponse / NoticeResponse
+    let codes = [b'S', b'V', b'C', b'M', b'D', b'H'];
+    for n in 1..=codes.len() {
+        for empty_mask in 0..(1u32 << n) {
+            if n > 3 && empty_mask.count_ones() != 1 && empty_mask != (1 << n) - 1 {
+                continue; // for larger maps: exactly one empty position, or all empty
+            }
+            let fields: HashMap<u8, String> = (0..n).map(|i| (codes[i], if empty_mask & (1 << i) != 0 { String::new() } else { format!("v{}", i) })).collect();
+            probes.push(BackendMessage::ErrorResponse { fields: fields.clone() });
+            probes.push(BackendMessage::NoticeResponse { fields });
+        }
+    }
+    for n in 0..4usize {
+        for empty_at in 0..=n {
+            // empty_at == n: no empty component
+            probes.push(BackendMessage::RowDescription { fields: (0..n).map(|i| fd(if i == empty_at { "" } else { "col" })).collect() });
+            probes.push(BackendMessage::DataRow { values: (0..n).map(|i| if i == empty_at { Some(vec![]) } else { Some(vec![b'x']) }).collect() });
+            probes.push(BackendMessage::DataRow { values: (0..n).map(|i| if i == empty_at { None } else { Some(vec![]) }).collect() });
+        }
+    }
+    probes.push(BackendMessage::ParameterStatus { name: "".into(), value: "x".into() });
+    probes.push(BackendMessage::ParameterStatus { name: "x".into(), value: "".into() });
     for m in &probes {
         cx.check(m, "probe");
     }
